@@ -151,7 +151,7 @@ func c07(c *core.Check) {
 	}
 
 	// ---- R1 bounds
-	r1 := c.Rule("R1", "every fixed-position read of a variable-length value in scope (index c, slice bound c, len-c, v-c) cannot be out of range: length by construction, unreachable for every shorter length, or a parameter precondition established at each call site; reads whose safety is a relational invariant are tabled per function with their count and reason", 400)
+	r1 := c.Rule("R1", "every fixed-position read of a variable-length value in scope (index c, slice bound c, len-c, v-c) cannot be out of range: length by construction, unreachable for every shorter length, or a parameter precondition established at each call site; reads whose safety is a relational invariant are tabled per function with their count and reason", 495)
 	eng := core.NewBoundsEngine(p)
 	results, unc, calls := eng.Analyse(scope, func(fn *ssa.Function) bool { return false })
 	all := append(results, calls...)
@@ -293,7 +293,7 @@ func c07(c *core.Check) {
 	}
 
 	// ---- R2 panics
-	r2 := c.Rule("R2", "no explicit panic is reachable from the parse entry points except those of the reasoned table (dead by a regexp invariant, or the default of a dispatch proven exhaustive by another rule)", 8)
+	r2 := c.Rule("R2", "no explicit panic is reachable from the parse entry points except those of the reasoned table (dead by a regexp invariant, or the default of a dispatch proven exhaustive by another rule)", 10)
 	panicFns := map[string]int{}
 	for _, fn := range scope {
 		for _, pn := range core.PanicSites(fn) {
@@ -308,7 +308,7 @@ func c07(c *core.Check) {
 	}
 
 	// ---- R3 unchecked assertions
-	r3 := c.Rule("R3", "no single-result type assertion in scope outside the reasoned table (generated accessors are discharged by C04.R2); validation.HasVar returns true for a var() block only when it has a first argument that is an identifier (resolveVar relies on it)", 8)
+	r3 := c.Rule("R3", "no single-result type assertion in scope outside the reasoned table (generated accessors are discharged by C04.R2); validation.HasVar returns true for a var() block only when it has a first argument that is an identifier (resolveVar relies on it)", 10)
 	assertBy := map[string][]*ssa.TypeAssert{}
 	for _, fn := range scope {
 		for _, ta := range core.UncheckedAsserts(fn) {
